@@ -150,6 +150,34 @@ func canonValue(v interface{}) string {
 		return sb.String()
 	case int8, int16, int32, int64, int, uint8, uint16, uint32, uint64, uint:
 		return fmt.Sprintf("int:%d", x)
+	case []int32:
+		var sb strings.Builder
+		sb.WriteString("[]int:")
+		for _, e := range x {
+			fmt.Fprintf(&sb, "%d,", e)
+		}
+		return sb.String()
+	case []int64:
+		var sb strings.Builder
+		sb.WriteString("[]int:")
+		for _, e := range x {
+			fmt.Fprintf(&sb, "%d,", e)
+		}
+		return sb.String()
+	case []uint32:
+		var sb strings.Builder
+		sb.WriteString("[]int:")
+		for _, e := range x {
+			fmt.Fprintf(&sb, "%d,", e)
+		}
+		return sb.String()
+	case []uint64:
+		var sb strings.Builder
+		sb.WriteString("[]int:")
+		for _, e := range x {
+			fmt.Fprintf(&sb, "%d,", e)
+		}
+		return sb.String()
 	default:
 		return fmt.Sprintf("%T:%v", v, v)
 	}
